@@ -35,3 +35,17 @@ def flat(xs):
     for x in xs:
         out.extend(x if isinstance(x, list) else [x])
     return out
+
+
+def matrix_jobs(prop, fam, tier, **kw):
+    """feature-matrix scenario families (scenlib.matrix1 / matrix2): pairwise-covering subset in the quick tier,
+    a large sample / the full product in the thorough tier."""
+    from .. import scenlib as S
+    out = []
+    if fam == 'm1':
+        for row in S.matrix1_rows(tier):
+            out += mk(prop, S.matrix1_id(*row), S.matrix1(*row), max_paths=4000, **kw)
+    elif fam == 'm2':
+        for row in S.matrix2_rows(tier):
+            out += mk(prop, S.matrix2_id(*row), S.matrix2(*row), max_paths=4000, **kw)
+    return out
